@@ -409,6 +409,12 @@ func decimalValueFromString(numStr string, fracDigRequired uint8) (n Number, err
 	var fracDig int
 	if dx >= 0 {
 		fracDig = len(s) - 1 - dx
+		// A decimal point stands between digits (Section 9.3.4):
+		// ".5", "1." and "-.5" are not numbers, and neither is what
+		// is left of "0...5" once the range has been split at "..".
+		if fracDig == 0 || strings.TrimLeft(s[:dx], "+-") == "" {
+			return n, fmt.Errorf("%s is not a valid decimal number: a decimal point stands between digits", numStr)
+		}
 		// remove first decimal, if dx > 1, will fail ParseInt below
 		s = s[:dx] + s[dx+1:]
 	}
